@@ -106,22 +106,6 @@ def apply_contract(interp, c, func, args, kwargs):
         env = dict(env, old=old)      # `when` conditions of exceptional outcomes may mention the pre-state
     if c.event is not None:
         st.emit(c.event, dict(bound))
-    # frame: the symbolic mutable state (maps) reachable from the parameters named in `modifies` is forgotten;
-    # the clauses relate it to `old`.  (Applies to exceptional outcomes too.)
-    if isinstance(c.modifies, (tuple, list)) and c.modifies:
-        from . import models
-        n = st.counters.get('@call', 0)
-        st.counters['@call'] = n + 1
-        for pname in c.modifies:
-            base, _, attrs = pname.partition('.')
-            if base not in bound:
-                raise Unsupported('contract %s: modifies names unknown parameter %r' % (c.qname, pname))
-            target = bound[base]
-            for a in (attrs.split('.') if attrs else ()):      # 'param.attr.attr': only that part of the object
-                target = interp.resolve(target) if isinstance(target, (SOpt, SChoice)) else target
-                target = object.__getattribute__(target, '__dict__')[a]
-            if not models.havoc_mutable(interp, target, 'call%d.%s' % (n, c.qname.rpartition(':')[2])):
-                raise Unsupported('contract %s: nothing to havoc in parameter %r' % (c.qname, pname))
     # frame: ghost state the callee may change (entries 'ghost:<key>' of `modifies`) is havoced;
     # what is known about it afterwards is what the (exceptional) postconditions say
     short = c.qname.rpartition(':')[2]
@@ -266,7 +250,12 @@ def _havoc_modified(interp, c, bound):
             raise Unsupported('contract %s modifies %r, but the caller passes a concrete list: declare the '
                               'caller\'s local in its contract (locals=dict(name=MListOf(...)))' % (c.qname, path))
         else:
-            raise Unsupported('modifies %r of %s: neither a symbolic mutable list nor an iterator' % (path, c.qname))
+            # symbolic maps (and objects that hold them): the mutable state reachable from the named
+            # parameter / field is forgotten; the clauses relate it to `old`
+            from . import models
+            if not models.havoc_mutable(interp, obj, '%s.%s' % (tag, c.qname.rpartition(':')[2])):
+                raise Unsupported('modifies %r of %s: nothing to havoc (neither a symbolic mutable list, an '
+                                  'iterator nor a symbolic map)' % (path, c.qname))
 
 
 def _make_exc(interp, exc_cls, spec, env):
